@@ -54,7 +54,9 @@ def corpus(name):
 
 
 TRACES2 = ('((S (WHNP-1 (WP who)) (NP-SBJ-2 (NN dogs)) (VP (VB bark) (NP (-NONE- *T*-1)) (NP (-NONE- *-2)))))\n'
-           '((S (NP-3 (NN cats)) (WHADVP-4 (WRB when)) (VP (VB sleep) (NP (-NONE- *-3)) (ADVP (-NONE- *T*-4)))))\n')
+           '((S (NP-3 (NN cats)) (WHADVP-4 (WRB when)) (VP (VB sleep) (NP (-NONE- *-3)) (ADVP (-NONE- *T*-4)))))\n'
+           # a co-indexed trace without a filler next to two filled ones whose paths share nodes
+           '((S (WHNP-5 (WP what)) (NP-SBJ-6 (NN birds)) (VP (VB sing) (NP (-NONE- *T*-5)) (NP (-NONE- *-6)) (PP (-NONE- *ICH*-7)))))\n')
 TRACES = '((S (NP-SBJ-1 (NN dogs)) (VP (VB bark) (NP (-NONE- *T*-1)))))\n((S (WHNP-2 (WP who)) (S (NP (-NONE- *T*-2)) (VP (VB left)))))\n'
 TERMFILES = {
     'F1': ('terms_one.txt', '1 2 neu XY\n2 1 vorn XY\n'),
